@@ -39,13 +39,15 @@ A variant is the tuple (attach, status_xy, status_z, idpos, obspos):
            exceed the final number of unknowns)
 
 NOTE on the position of P (300,150): singular_coords() computes
-1 - |ab|/sqrt(aa*bb) from the x and y columns of a point; a single sight
-exactly parallel to a coordinate axis makes one column zero, the quotient NaN
-and the test false, i.e. such a point is NOT removed there (the free variant
-then ends with "No unknowns have been defined", the constrained one keeps P
-with defect + 1).  That is a removal question (C20), not a datum question:
-excluded here by construction (every sight to P has dx != 0 and dy != 0;
-selfcheck() proves it exactly for every generated variant).
+1 - |ab|/sqrt(aa*bb) from the x and y columns of a point; no sight of the
+attachments dist / dir / ang / sdist is parallel to a coordinate axis (both
+columns non-zero; selfcheck() proves it exactly for every generated variant).
+The attachment 'distx' is the other case: ONE horizontal distance exactly
+along the x axis (P = anchor + (100, 0), bearing exactly 0): the y column of P
+is exactly zero, the quotient 0/0.  Before the repair 796e8cc (section 4.1)
+such a point was not removed; since then it must be removed like every other
+single-sight point, whatever its status (free or constrained) - expected
+listing and remaining network are those of 'dist'.
 """
 import os, sys
 sys.path.insert(0, os.path.dirname(os.path.abspath(__file__)))
@@ -59,12 +61,12 @@ OBSPOS = ("first", "second", "last")
 
 ATTACH = {                        # family kind -> attachments
     "lev": ("none",),
-    "dist": ("none", "dist"),
-    "dirdist": ("none", "dist", "dir"),
-    "ang": ("none", "dist", "ang"),
-    "sz": ("none", "dist", "sdist"),
-    "sd": ("none", "dist", "sdist"),
-    "vec": ("none", "dist"),
+    "dist": ("none", "dist", "distx"),
+    "dirdist": ("none", "dist", "distx", "dir"),
+    "ang": ("none", "dist", "distx", "ang"),
+    "sz": ("none", "dist", "distx", "sdist"),
+    "sd": ("none", "dist", "distx", "sdist"),
+    "vec": ("none", "dist", "distx"),
 }
 
 
@@ -132,8 +134,11 @@ def apply(net, var):
     anchor = last if obspos == "last" else first
     if attach == "none":
         return n, pid
-    if attach in ("dist", "sdist"):
-        knd = "distance" if attach == "dist" else "s-distance"
+    if attach == "distx":                          # exactly along the x axis of the anchor: the y column of P is exactly zero
+        A = [p for p in n.points if p.id == anchor][0]
+        P.x = A.x + 100; P.y = A.y
+    if attach in ("dist", "distx", "sdist"):
+        knd = "s-distance" if attach == "sdist" else "distance"
         o = Obs(knd, pid, anchor, stdev=5.0) if obspos == "first" else Obs(knd, anchor, pid, stdev=5.0)
         # the cluster that already holds distances (no station of its own), else a new one
         tgt = None
@@ -196,5 +201,8 @@ def selfcheck(net, var):
         if p.xy: p.xy = "adj"
         if p.zs: p.zs = "adj"
     row = n08_ref.exact_row(m, ci, o, None)
-    assert row.get(("x", pid), 0) != 0 and row.get(("y", pid), 0) != 0, "sight to the dangling point is parallel to an axis"
-    assert o.kind == {"dist": "distance", "sdist": "s-distance", "dir": "direction", "ang": "angle"}[attach]
+    if attach == "distx":
+        assert row.get(("x", pid), 0) != 0 and row.get(("y", pid), 0) == 0, "distx: the y column of the dangling point is not exactly zero"
+    else:
+        assert row.get(("x", pid), 0) != 0 and row.get(("y", pid), 0) != 0, "sight to the dangling point is parallel to an axis"
+    assert o.kind == {"dist": "distance", "distx": "distance", "sdist": "s-distance", "dir": "direction", "ang": "angle"}[attach]
